@@ -941,7 +941,16 @@ def check_C20(tier, seed):
     # option sets that keep pest's optimizer: must equal the model on the optimized AST, no finding applies
     props.run_generic(ctx, "c20on", variants(on_sets, "n"), "s", cmp, with_pest=False, use_known=False)
     # optimizer off: the property demands the same outcome; mismatches must be exactly the source-AST reading (known finding)
-    props.run_generic(ctx, "c20off", variants(off_sets, "f"), "s", cmp, with_pest=False, use_known=True)
+    offv = variants(off_sets, "f")
+    # more grammars on the raw-AST path: operator compositions with counted repetitions / e+ under implicit skipping
+    import families
+    ops = [g for g in families.fam_ops(tier) if g["id"].startswith("ow") and any(t in g["text"] for t in ("{2}", "{1,}", "{,2}", "{1,2}", ")+"))]
+    for g in (ops[::4] if tier == "quick" else ops):
+        x = dict(g)
+        x["id"] = g["id"] + "f9"
+        x["opts"] = {"pest_optimizer": False}
+        offv.append(x)
+    props.run_generic(ctx, "c20off", offv, "s", cmp, with_pest=False, use_known=True)
     # generation is deterministic: N separate generator processes give byte-identical token streams
     famgen.sync_workspace()
     p, genbin = build_bin("genrun")
